@@ -807,6 +807,14 @@ def run_c19(tier, seed):
             except Exception as e:      # noqa
                 rec.fail('c19_crash', 'writing / reading back a complete file raised %s: %s' % (type(e).__name__, e), case)
             rec.case(key=(k, wf), nontrivial=True, sample=case if k == 2 else None)
+    # records of EQUAL size (a reader that re-uses a buffer between records shows its stale bytes only then)
+    for wf in (False, True):
+        case = dict(seed=seed, tag='c19', pseed=int(rng.integers(1, 10 ** 6)), k=3, with_fluxes=wf, sizes=[3, 3, 3])
+        try:
+            c19_file(rec, case)
+        except Exception as e:      # noqa
+            rec.fail('c19_crash', 'writing / reading back a complete file raised %s: %s' % (type(e).__name__, e), case)
+        rec.case(key=('equal-size', wf), nontrivial=True)
     # count offsets as evaluations
     rec.exhaustive = True
     big = dict(seed=seed, tag='c19', pseed=7, k=2, with_fluxes=True, sizes=[3, 70000], frame_cuts=True)
